@@ -4,8 +4,13 @@
 
    One *call* of Transact is identified by t.  The observable events of a call are
      call                       the harness is about to invoke Transact
-     begin(ok|fail)             the database saw a Begin attempt (database/sql may retry
-                                a Begin on a broken connection; failed attempts begin nothing)
+     begin(ok|okb|fail)         the database saw a Begin attempt (database/sql may retry
+                                a Begin on a broken connection; failed attempts begin nothing);
+                                "okb": begun and BOUND to the caller's context (sql.DB.BeginTx
+                                with a cancellable context: database/sql itself then rolls the
+                                transaction back, asynchronously, once that context is done)
+     ctxDone                    the caller's context (TransactCtx) is cancelled / hits its
+                                deadline -- an environment event, at any moment of the call
      body                       the user function was entered
      stmt(ok|fail|foreign)      the database saw a statement of this body ("foreign": it
                                 arrived outside the transaction of this call)
@@ -25,7 +30,17 @@
    Spec      = guarded machine, any number of interleaved calls  (H_* are invariants)
    FreeSpec  = any event at any time, recording whether a guard was violated (dev);
                invariant Agree: dev <=> some H_* clause is violated by the history.
-   So the guards reject exactly the histories the property forbids: no more, no less. *)
+   So the guards reject exactly the histories the property forbids: no more, no less.
+
+   The caller's context.  The property statement does not mention it, so a context that is
+   done excuses NOTHING by itself: exactly one end, commit iff the body returned nil, nil
+   iff committed keep holding (go-zero begins with sql.DB.Begin(), the transaction is not
+   tied to the caller's context).  The only allowance -- Excused(c) -- is for a transaction
+   that the database layer reports as bound to the caller's context ("okb"): when that
+   context is done, database/sql (Tx.awaitDone) rolls the transaction back on its own, at any
+   moment -- while the body runs, after it returned nil, even after Transact returned -- its
+   Commit then answers with the context error and a failing rollback of that kind is
+   discarded by database/sql.  Those are acts of the environment, not of Transact.       *)
 EXTENDS Integers, Sequences, FiniteSets, TLC
 
 VARIABLES
@@ -38,14 +53,17 @@ TxStates   == {"none", "open", "committed", "commitFailed", "rolledBack", "rollb
 BodyStates == {"notRun", "running", "nil", "err", "panic"}
 RetStates  == {"pending", "nil", "err", "panic"}
 
-NewCall == [tx |-> "none", body |-> "notRun", ret |-> "pending", log |-> <<>>]
+CtxStates  == {"live", "done"}
+
+NewCall == [tx |-> "none", body |-> "notRun", ret |-> "pending", ctx |-> "live", bound |-> FALSE, log |-> <<>>]
 
 Ev(e, a)       == [e |-> e, a |-> a, rep |-> {}]
 RetEv(a, rep)  == [e |-> "ret", a |-> a, rep |-> rep]
 OkFail(b)      == IF b THEN "ok" ELSE "fail"
 
 AllEvents ==
-       {Ev("begin", a)    : a \in {"ok", "fail"}}
+       {Ev("begin", a)    : a \in {"ok", "okb", "fail"}}
+  \cup {Ev("ctxDone", "")}
   \cup {Ev("body", "")}
   \cup {Ev("stmt", a)     : a \in {"ok", "fail", "foreign"}}
   \cup {Ev("nest", a)     : a \in {"refused", "accepted"}}
@@ -57,29 +75,39 @@ AllEvents ==
 -----------------------------------------------------------------------------
 (* ---------------- operational formulation: guards and effects ------------ *)
 
+\* the environment may end this call's transaction on its own: it is bound to the caller's
+\* context and that context is done
+Excused(c) == c.bound /\ c.ctx = "done"
+
 \* May event ev happen now in a call whose state is c ?
 Guard(c, ev) ==
-  /\ c.ret = "pending"                                  \* nothing happens after the return
-  /\ CASE ev.e = "begin"    -> c.tx = "none"            \* one transaction per call
+  IF c.ret # "pending"                                  \* nothing happens after the return ...
+  THEN ev.e = "rollback" /\ c.tx = "open" /\ Excused(c)  \* ... but database/sql's late rollback
+  ELSE
+    CASE ev.e = "begin"    -> c.tx = "none"            \* one transaction per call
+       [] ev.e = "ctxDone"  -> TRUE                     \* environment, any time during the call
        [] ev.e = "body"     -> c.tx = "open" /\ c.body = "notRun"   \* only inside a begun tx
        [] ev.e = "stmt"     -> c.tx = "open" /\ c.body = "running" /\ ev.a \in {"ok", "fail"}
-       [] ev.e = "nest"     -> c.tx = "open" /\ c.body = "running" /\ ev.a = "refused"
+       [] ev.e = "nest"     -> (c.tx = "open" \/ Excused(c)) /\ c.body = "running" /\ ev.a = "refused"
        [] ev.e = "bodyEnd"  -> c.body = "running"
        [] ev.e = "commit"   -> c.tx = "open" /\ c.body = "nil"      \* commit only if body returned nil
        \* rollback: body failed/panicked (or was never started -- the property does not
-       \* forbid giving a begun transaction up before running the body)
-       [] ev.e = "rollback" -> c.tx = "open" /\ c.body \in {"notRun", "err", "panic"}
+       \* forbid giving a begun transaction up before running the body); a context that is
+       \* done is no reason to roll back unless the transaction is bound to it
+       [] ev.e = "rollback" -> c.tx = "open" /\ (c.body \in {"notRun", "err", "panic"} \/ Excused(c))
        [] ev.e = "ret"      ->
-            /\ c.tx # "open"                            \* ended (exactly once) before returning
+            /\ c.tx # "open" \/ Excused(c)              \* ended (exactly once) before returning
             /\ c.body # "running"
             /\ ev.a # "panic"                           \* a panic is reported as an error
             /\ (ev.a = "nil") <=> (c.tx = "committed")  \* nil iff the commit succeeded
             /\ c.tx = "commitFailed"   => "commit" \in ev.rep     \* failures reach the caller
-            /\ c.tx = "rollbackFailed" => "rollback" \in ev.rep
+            /\ c.tx = "rollbackFailed" /\ ~Excused(c) => "rollback" \in ev.rep
        [] OTHER -> FALSE
 
 Effect(c, ev) ==
-  LET d == CASE ev.e = "begin" /\ ev.a = "ok" -> [c EXCEPT !.tx = "open"]
+  LET d == CASE ev.e = "begin" /\ ev.a = "ok"  -> [c EXCEPT !.tx = "open"]
+             [] ev.e = "begin" /\ ev.a = "okb" -> [c EXCEPT !.tx = "open", !.bound = TRUE]
+             [] ev.e = "ctxDone"              -> [c EXCEPT !.ctx = "done"]
              [] ev.e = "body"                 -> [c EXCEPT !.body = "running"]
              [] ev.e = "bodyEnd"              -> [c EXCEPT !.body = ev.a]
              [] ev.e = "commit"               -> [c EXCEPT !.tx = IF ev.a = "ok" THEN "committed" ELSE "commitFailed"]
@@ -109,7 +137,8 @@ Call(t) ==
   /\ cs' = [x \in DOMAIN cs \cup {t} |-> IF x = t THEN NewCall ELSE cs[x]]
   /\ UNCHANGED dev
 
-Begin(t, ok)       == Do(t, Ev("begin", OkFail(ok)))
+Begin(t, a)        == Do(t, Ev("begin", a))          \* a \in {"ok", "okb", "fail"}
+CtxDone(t)         == Do(t, Ev("ctxDone", ""))
 BodyStart(t)       == Do(t, Ev("body", ""))
 Stmt(t, a)         == Do(t, Ev("stmt", a))
 Nest(t, a)         == Do(t, Ev("nest", a))
@@ -123,7 +152,9 @@ Return(t, a, rep)  == Do(t, RetEv(a, rep))
 
 Has(P, e, a)   == \E j \in DOMAIN P : P[j].e = e /\ P[j].a = a
 HasE(P, e)     == \E j \in DOMAIN P : P[j].e = e
-Begun(P)       == Has(P, "begin", "ok")
+Begun(P)       == Has(P, "begin", "ok") \/ Has(P, "begin", "okb")
+\* the transaction is bound to the caller's context and that context is done
+ExcusedH(P)    == Has(P, "begin", "okb") /\ HasE(P, "ctxDone")
 Ended(P)       == HasE(P, "commit") \/ HasE(P, "rollback")
 BodyRunning(P) == HasE(P, "body") /\ ~HasE(P, "bodyEnd")
 Prefix(L, i)   == SubSeq(L, 1, i - 1)
@@ -137,7 +168,8 @@ H_BodyOnlyInTx(L) == \A i \in DOMAIN L : L[i].e = "body" =>
 \* structural: statements belong to the running body and reach the open tx of this call;
 \* a nested Transact on the tx session is refused
 H_StmtInTx(L) == \A i \in DOMAIN L : L[i].e \in {"stmt", "nest"} =>
-     LET P == Prefix(L, i) IN BodyRunning(P) /\ ~Ended(P) /\ L[i].a \in {"ok", "fail", "refused"}
+     LET P == Prefix(L, i) IN /\ BodyRunning(P) /\ L[i].a \in {"ok", "fail", "refused"}
+                              /\ ~Ended(P) \/ (L[i].e = "nest" /\ ExcusedH(P))
 H_BodyEndsOnce(L) == \A i \in DOMAIN L : L[i].e = "bodyEnd" => BodyRunning(Prefix(L, i))
 \* "ends it exactly once" (at most once here; at least once: H_EndedAtReturn)
 H_EndOnce(L) == \A i \in DOMAIN L : L[i].e \in {"commit", "rollback"} =>
@@ -145,11 +177,12 @@ H_EndOnce(L) == \A i \in DOMAIN L : L[i].e \in {"commit", "rollback"} =>
 \* "commits if and only if the body returned nil" -- only-if part
 H_CommitOnlyIfNil(L) == \A i \in DOMAIN L : L[i].e = "commit" => Has(Prefix(L, i), "bodyEnd", "nil")
 \* -- if part: a rollback never follows a body that returned nil, nor interrupts a running body
+\* (whatever the state of the caller's context -- unless the transaction is bound to it)
 H_RollbackOnlyIfNotNil(L) == \A i \in DOMAIN L : L[i].e = "rollback" =>
-     LET P == Prefix(L, i) IN ~Has(P, "bodyEnd", "nil") /\ ~BodyRunning(P)
+     LET P == Prefix(L, i) IN (~Has(P, "bodyEnd", "nil") /\ ~BodyRunning(P)) \/ ExcusedH(P)
 \* at the return the transaction, if begun, has been ended and the body is over
 H_EndedAtReturn(L) == \A i \in DOMAIN L : L[i].e = "ret" =>
-     LET P == Prefix(L, i) IN (Begun(P) => Ended(P)) /\ ~BodyRunning(P)
+     LET P == Prefix(L, i) IN (Begun(P) => Ended(P) \/ ExcusedH(P)) /\ ~BodyRunning(P)
 \* "the panic is reported as an error" -- it neither escapes nor (H_NilIffCommitted) becomes nil
 H_NoPanicEscapes(L) == \A i \in DOMAIN L : L[i].e = "ret" => L[i].a # "panic"
 \* "the returned error is nil only when the commit succeeded" (and nil when it did)
@@ -158,9 +191,11 @@ H_NilIffCommitted(L) == \A i \in DOMAIN L : L[i].e = "ret" =>
 \* "commit or rollback failures are reported to the caller"
 H_FailuresReported(L) == \A i \in DOMAIN L : L[i].e = "ret" =>
      LET P == Prefix(L, i) IN /\ Has(P, "commit", "fail")   => "commit" \in L[i].rep
-                              /\ Has(P, "rollback", "fail") => "rollback" \in L[i].rep
+                              /\ Has(P, "rollback", "fail") /\ ~ExcusedH(P) => "rollback" \in L[i].rep
 \* nothing belongs to a call after it returned
-H_NothingAfterReturn(L) == \A i \in DOMAIN L : ~HasE(Prefix(L, i), "ret")
+\* (except database/sql's own late rollback of a context-bound transaction)
+H_NothingAfterReturn(L) == \A i \in DOMAIN L :
+     LET P == Prefix(L, i) IN HasE(P, "ret") => L[i].e = "rollback" /\ ExcusedH(P)
 
 HistOK(L) ==
   /\ H_OneBegin(L) /\ H_BodyOnlyInTx(L) /\ H_StmtInTx(L) /\ H_BodyEndsOnce(L)
@@ -189,17 +224,18 @@ Violated(L) ==
 -----------------------------------------------------------------------------
 (* ---------------- invariants ---------------- *)
 
-TypeOK == \A t \in DOMAIN cs : cs[t].tx \in TxStates /\ cs[t].body \in BodyStates /\ cs[t].ret \in RetStates
+TypeOK == \A t \in DOMAIN cs : /\ cs[t].tx \in TxStates /\ cs[t].body \in BodyStates /\ cs[t].ret \in RetStates
+                               /\ cs[t].ctx \in CtxStates /\ cs[t].bound \in BOOLEAN
 
 \* the guarded machine only produces histories the property allows
 PropertyHolds == \A t \in DOMAIN cs : HistOK(cs[t].log)
 
 \* consequences spelled out in the property statement (theorems of the clauses above)
 Returned(c) == c.ret # "pending"
-CommitsIffNil == \A t \in DOMAIN cs : Returned(cs[t]) /\ cs[t].tx # "none" =>
+CommitsIffNil == \A t \in DOMAIN cs : Returned(cs[t]) /\ cs[t].tx # "none" /\ ~Excused(cs[t]) =>
      /\ (cs[t].body = "nil") <=> HasE(cs[t].log, "commit")
      /\ (cs[t].body \in {"err", "panic"}) => HasE(cs[t].log, "rollback")
-ExactlyOneEnd == \A t \in DOMAIN cs : Returned(cs[t]) =>
+ExactlyOneEnd == \A t \in DOMAIN cs : Returned(cs[t]) /\ ~(Excused(cs[t]) /\ cs[t].tx = "open") =>
      Cardinality({i \in DOMAIN cs[t].log : cs[t].log[i].e \in {"commit", "rollback"}})
        = (IF cs[t].tx = "none" THEN 0 ELSE 1)
 NilOnlyAfterCommit == \A t \in DOMAIN cs : cs[t].ret = "nil" => cs[t].tx = "committed" /\ cs[t].body = "nil"
@@ -208,6 +244,16 @@ StateMatchesLog == \A t \in DOMAIN cs : LET L == cs[t].log IN
      /\ (cs[t].tx = "none") <=> ~Begun(L)
      /\ (cs[t].tx = "open") <=> (Begun(L) /\ ~Ended(L))
      /\ (cs[t].body = "running") <=> BodyRunning(L)
+     /\ (cs[t].ctx = "done") <=> HasE(L, "ctxDone")
+     /\ cs[t].bound <=> Has(L, "begin", "okb")
+     /\ Excused(cs[t]) <=> ExcusedH(L)
+\* The caller's context excuses nothing for a transaction that is not bound to it: whatever
+\* happened to the context, a returned call has ended its transaction exactly once, by a
+\* commit iff its body returned nil.
+CtxExcusesNothing == \A t \in DOMAIN cs : LET c == cs[t] IN Returned(c) /\ ~c.bound /\ c.tx # "none" =>
+     /\ c.tx # "open"
+     /\ c.tx \in {"committed", "commitFailed"} <=> c.body = "nil"
+     /\ Cardinality({i \in DOMAIN c.log : c.log[i].e \in {"commit", "rollback"}}) = 1
 
 \* The same, as far as it can be said about the current state alone (tx, body, ret).  No event
 \* changes these three except as Effect says, and statements do not change them at all: checked
@@ -216,12 +262,12 @@ StateMatchesLog == \A t \in DOMAIN cs : LET L == cs[t].log IN
 StateInv == \A t \in DOMAIN cs : LET c == cs[t] IN
      /\ c.body # "notRun" => c.tx # "none"                            \* body only after a successful begin
      /\ c.tx \in {"committed", "commitFailed"} => c.body = "nil"       \* commit only if the body returned nil
-     /\ c.tx \in {"rolledBack", "rollbackFailed"} => c.body \in {"notRun", "err", "panic"}
-     /\ c.ret # "pending" => c.tx # "open" /\ c.body # "running"      \* ended before the return
-     /\ c.ret # "pending" /\ c.body = "nil" => c.tx \in {"committed", "commitFailed"}
+     /\ c.tx \in {"rolledBack", "rollbackFailed"} => c.body \in {"notRun", "err", "panic"} \/ Excused(c)
+     /\ c.ret # "pending" => (c.tx # "open" \/ Excused(c)) /\ c.body # "running"   \* ended before the return
+     /\ c.ret # "pending" /\ c.body = "nil" => c.tx \in {"committed", "commitFailed"} \/ Excused(c)
      /\ c.ret = "nil" <=> (c.ret # "pending" /\ c.tx = "committed")    \* nil iff committed
      /\ c.ret # "panic"                                               \* no panic escapes
-StateView == [t \in DOMAIN cs |-> <<cs[t].tx, cs[t].body, cs[t].ret>>]
+StateView == [t \in DOMAIN cs |-> <<cs[t].tx, cs[t].body, cs[t].ret, cs[t].ctx, cs[t].bound>>]
 
 \* FreeSpec: the guards were violated exactly when some clause of the property is
 AgreeInv == dev <=> (\E t \in DOMAIN cs : ~HistOK(cs[t].log))
